@@ -1,4 +1,285 @@
-/- C13 — property theorems (stub; filled in by the owning work package). -/
-import Rdm.Basic
+/-
+  C13 — the satisfaction heuristic ranks by the first level an alternative satisfies.
+  Property theorems only (helper lemmas: Rdm/Lemmas/HeurSatisf.lean, HeurLinks.lean, HeurList.lean).
+  All theorems are generic in the number type (they hold for the Float model run by the driver and for
+  the Rat model alike) and for every number of alternatives, criteria and levels.
+
+  Model: Rdm/Model/Heuristics.lean (`searchOrder`, `isGoodEnough`, `satAltLoop`, `satLevelLoop`,
+  `worstEnds`, `satisfactionCore`, `satisfactionEvaluateWith`); spec on outputs: Rdm/Spec/C13.lean.
+-/
+import Rdm.Model.Heuristics
+import Rdm.Spec.C13
+import Rdm.Lemmas.HeurList
+import Rdm.Lemmas.HeurLinks
+import Rdm.Lemmas.HeurSatisf
+set_option linter.unusedSectionVars false
+set_option linter.unusedSimpArgs false
 namespace Rdm.Props.C13
+open Rdm
+variable {α : Type} [Num α]
+
+/-- inversion of `satisfactionCore`: the ranking is the sequential ranking of acceptances followed by
+    the leftovers, which all carry the index after the last level and the worst range ends -/
+theorem core_shape (d : DMP α) (levels : List (KMap α)) (order : List (Alt α))
+    (out : List (Linked (SatEval α))) (h : satisfactionCore d levels order = Except.ok out) :
+    ∃ left acc si, satLevelLoop d.crit 0 levels order = Except.ok (left, acc, si) ∧
+      ((left = [] ∧ out = sequentialRanking acc) ∨
+       (left ≠ [] ∧ ∃ lowest, worstEnds d = Except.ok lowest ∧
+          out = sequentialRanking (acc ++ left.map fun a => (a.id, (⟨si, lowest⟩ : SatEval α))))) := by
+  unfold satisfactionCore at h
+  obtain ⟨⟨left, acc, si⟩, h1, h⟩ := R.bind_eq_ok h
+  refine ⟨left, acc, si, h1, ?_⟩
+  cases left with
+  | nil => left; simp at h; exact ⟨rfl, by rw [← h]⟩
+  | cons x xs =>
+    right
+    simp only [List.isEmpty_cons, Bool.false_eq_true, if_false] at h
+    obtain ⟨lowest, h3, h⟩ := R.bind_eq_ok h
+    simp at h
+    exact ⟨by simp, lowest, h3, by rw [← h]; simp⟩
+
+/-- **permutation**: every alternative of the search order is ranked exactly once -/
+theorem result_is_permutation_of_search_order (d : DMP α) (levels : List (KMap α)) (order : List (Alt α))
+    (out : List (Linked (SatEval α))) (hnd : (order.map (·.id)).Nodup)
+    (h : satisfactionCore d levels order = Except.ok out) :
+    (out.map (·.id)).Perm (order.map (·.id)) := by
+  obtain ⟨left, acc, si, hl, hcase⟩ := core_shape d levels order out h
+  obtain ⟨p1, _, _, _, _⟩ := satLevelLoop_spec hnd hl
+  rcases hcase with ⟨rfl, rfl⟩ | ⟨_, lowest, _, rfl⟩
+  · rw [heurSeq_ids]; simpa using p1
+  · rw [heurSeq_ids]
+    simpa [Function.comp_def] using p1
+
+/-- **links**: entry `i` is linked to entry `i+1` only (`PrepareSequentialRanking`) -/
+theorem links_are_sequential (d : DMP α) (levels : List (KMap α)) (order : List (Alt α))
+    (out : List (Linked (SatEval α))) (h : satisfactionCore d levels order = Except.ok out)
+    (i : Nat) (e : Linked (SatEval α)) (he : out[i]? = some e) :
+    e.links = ((out.map (·.id))[i + 1]?).toList := by
+  obtain ⟨left, acc, si, _, hcase⟩ := core_shape d levels order out h
+  rcases hcase with ⟨_, rfl⟩ | ⟨_, lowest, _, rfl⟩
+  · rw [heurSeq_ids]; exact heurSeq_links _ i e he
+  · rw [heurSeq_ids]; exact heurSeq_links _ i e he
+
+/-- **accepted-at-level semantics**: an entry whose index is a level index reports exactly the
+    thresholds of that level, its alternative meets them on every criterion and fails every earlier
+    level on some criterion.  **leftovers**: every other entry reports the number of levels and the
+    worst end of every criterion's range, and its alternative fails every level. -/
+theorem entry_semantics (d : DMP α) (levels : List (KMap α)) (order : List (Alt α))
+    (out : List (Linked (SatEval α))) (hnd : (order.map (·.id)).Nodup)
+    (h : satisfactionCore d levels order = Except.ok out) (e : Linked (SatEval α)) (he : e ∈ out) :
+    (e.ev.idx < levels.length ∧ levels[e.ev.idx]? = some e.ev.thr ∧
+       ∃ a ∈ order, a.id = e.id ∧ LevelGood d.crit a e.ev.thr ∧
+         ∀ j < e.ev.idx, ∃ t, levels[j]? = some t ∧ LevelBad d.crit a t) ∨
+    (e.ev.idx = levels.length ∧ worstEnds d = Except.ok e.ev.thr ∧
+       ∃ a ∈ order, a.id = e.id ∧ ∀ t ∈ levels, LevelBad d.crit a t) := by
+  obtain ⟨left, acc, si, hl, hcase⟩ := core_shape d levels order out h
+  obtain ⟨_, p2, p3, p4, p5⟩ := satLevelLoop_spec hnd hl
+  have accepted : (e.id, e.ev) ∈ acc →
+      (e.ev.idx < levels.length ∧ levels[e.ev.idx]? = some e.ev.thr ∧
+       ∃ a ∈ order, a.id = e.id ∧ LevelGood d.crit a e.ev.thr ∧
+         ∀ j < e.ev.idx, ∃ t, levels[j]? = some t ∧ LevelBad d.crit a t) := by
+    intro hm
+    obtain ⟨j, hj, hlv, a, ha, hid, hg, hb⟩ := p4 _ hm
+    simp only [Nat.zero_add] at hj
+    have hjl : j < levels.length := by
+      rcases List.getElem?_eq_some_iff.mp hlv with ⟨hh, _⟩; exact hh
+    refine ⟨by omega, by rw [hj]; exact hlv, a, ha, hid, hg, ?_⟩
+    intro j' hj'; exact hb j' (by omega)
+  rcases hcase with ⟨_, rfl⟩ | ⟨hne, lowest, hw, rfl⟩
+  · left; exact accepted (heurSeq_mem _ e he)
+  · rcases List.mem_append.mp (heurSeq_mem _ e he) with hm | hm
+    · left; exact accepted hm
+    · right
+      obtain ⟨a, ha, hpair⟩ := List.mem_map.mp hm
+      have hid : a.id = e.id := congrArg Prod.fst hpair
+      have hev : (⟨si, lowest⟩ : SatEval α) = e.ev := congrArg Prod.snd hpair
+      refine ⟨?_, ?_, a, p2.subset ha, hid, fun t ht => p5 a ha t ht⟩
+      · rw [← hev]; simpa using p3 hne
+      · rw [← hev]; exact hw
+
+/-- **acceptance order is lexicographic (level, search position)**: along the ranking the reported
+    level index never decreases (leftovers, with index `#levels`, come last), and the alternatives
+    reporting the same index appear in search order -/
+theorem acceptance_order_is_lexicographic (d : DMP α) (levels : List (KMap α)) (order : List (Alt α))
+    (out : List (Linked (SatEval α))) (hnd : (order.map (·.id)).Nodup)
+    (h : satisfactionCore d levels order = Except.ok out) :
+    (out.map (·.ev.idx)).Pairwise (· ≤ ·) ∧
+    ∀ ℓ, ((out.filter (fun e => e.ev.idx == ℓ)).map (·.id)).Sublist (order.map (·.id)) := by
+  obtain ⟨left, acc, si, hl, hcase⟩ := core_shape d levels order out h
+  obtain ⟨_, p2, p3, p4, _⟩ := satLevelLoop_spec hnd hl
+  obtain ⟨o1, _, o3⟩ := satLevelLoop_order hnd hl
+  -- everything is read off the (id, evaluation) pairs the ranking was built from
+  have key : ∀ (l : List (String × SatEval α)),
+      (l.map (·.2.idx)).Pairwise (· ≤ ·) →
+      (∀ ℓ, ((l.filter (fun p => p.2.idx == ℓ)).map (·.1)).Sublist (order.map (·.id))) →
+      ((sequentialRanking l).map (·.ev.idx)).Pairwise (· ≤ ·) ∧
+      ∀ ℓ, (((sequentialRanking l).filter (fun e => e.ev.idx == ℓ)).map (·.id)).Sublist (order.map (·.id)) := by
+    intro l h1 h2
+    have hp := heurSeq_payload l
+    constructor
+    · have : (sequentialRanking l).map (·.ev.idx) = l.map (·.2.idx) := by
+        conv_rhs => rw [← hp]
+        simp [Function.comp_def]
+      rw [this]; exact h1
+    · intro ℓ
+      have : ((sequentialRanking l).filter (fun e => e.ev.idx == ℓ)).map (·.id)
+          = (l.filter (fun p => p.2.idx == ℓ)).map (·.1) := by
+        conv_rhs => rw [← hp]
+        rw [List.filter_map]
+        simp [Function.comp_def]
+      rw [this]; exact h2 ℓ
+  rcases hcase with ⟨_, rfl⟩ | ⟨hne, lowest, _, rfl⟩
+  · exact key acc o1 o3
+  · apply key
+    · rw [List.map_append, List.pairwise_append]
+      refine ⟨o1, ?_, ?_⟩
+      · apply List.pairwise_of_forall_mem_list
+        intro a ha b hb
+        simp only [List.map_map, List.mem_map, Function.comp] at ha hb
+        obtain ⟨_, _, rfl⟩ := ha
+        obtain ⟨_, _, rfl⟩ := hb
+        exact Nat.le_refl _
+      · intro a ha b hb
+        obtain ⟨pa, hpa, rfl⟩ := List.mem_map.mp ha
+        simp only [List.map_map, List.mem_map, Function.comp] at hb
+        obtain ⟨_, _, rfl⟩ := hb
+        obtain ⟨j, hj, hlv, _⟩ := p4 pa hpa
+        have hjl : j < levels.length := by
+          rcases List.getElem?_eq_some_iff.mp hlv with ⟨hh, _⟩; exact hh
+        have hsi : si = 0 + levels.length := p3 hne
+        omega
+    · intro ℓ
+      rw [List.filter_append, List.map_append]
+      by_cases hsi : ℓ = si
+      · subst hsi
+        have e1 : acc.filter (fun p => p.2.idx == ℓ) = [] := by
+          apply List.filter_eq_nil_iff.mpr
+          intro p hp
+          obtain ⟨j, hj, hlv, _⟩ := p4 p hp
+          have hjl : j < levels.length := by
+            rcases List.getElem?_eq_some_iff.mp hlv with ⟨hh, _⟩; exact hh
+          have hsi : ℓ = 0 + levels.length := p3 hne
+          simp; omega
+        have e2 : (left.map fun a => (a.id, (⟨ℓ, lowest⟩ : SatEval α))).filter (fun p => p.2.idx == ℓ)
+            = left.map fun a => (a.id, (⟨ℓ, lowest⟩ : SatEval α)) := by
+          apply List.filter_eq_self.mpr
+          intro p hp
+          obtain ⟨_, _, rfl⟩ := List.mem_map.mp hp
+          simp
+        rw [e1, e2]
+        simpa [Function.comp_def] using p2.map (·.id)
+      · have e2 : (left.map fun a => (a.id, (⟨si, lowest⟩ : SatEval α))).filter (fun p => p.2.idx == ℓ) = [] := by
+          apply List.filter_eq_nil_iff.mpr
+          intro p hp
+          obtain ⟨_, _, rfl⟩ := List.mem_map.mp hp
+          simp; exact fun e => hsi e.symm
+        rw [e2]; simpa using o3 ℓ
+
+/-- no entry reports an index beyond the number of levels -/
+theorem index_le_number_of_levels (d : DMP α) (levels : List (KMap α)) (order : List (Alt α))
+    (out : List (Linked (SatEval α))) (hnd : (order.map (·.id)).Nodup)
+    (h : satisfactionCore d levels order = Except.ok out) (e : Linked (SatEval α)) (he : e ∈ out) :
+    e.ev.idx ≤ levels.length := by
+  rcases entry_semantics d levels order out hnd h e he with ⟨h1, _⟩ | ⟨h1, _⟩ <;> omega
+
+/-- what "meets the level" means: on every criterion the signed value is not below the signed threshold -/
+theorem goodAt_iff (a : Alt α) (th : List (WCrit α)) :
+    GoodAt a th ↔ ∀ v ∈ th, ∃ cv, a.signed v.crit = Except.ok cv ∧ ¬ cv < v.crit.mult * v.w := by
+  unfold GoodAt
+  induction th with
+  | nil => simp [isGoodEnough]
+  | cons v vs ih =>
+    unfold isGoodEnough
+    constructor
+    · intro h
+      obtain ⟨cv, h1, h2⟩ := R.bind_eq_ok h
+      by_cases hlt : cv < v.crit.mult * v.w
+      · simp [hlt] at h2
+      · simp only [hlt, if_false] at h2
+        intro x hx
+        rcases List.mem_cons.mp hx with rfl | hx
+        · exact ⟨cv, h1, hlt⟩
+        · exact (ih.mp h2) x hx
+    · intro h
+      obtain ⟨cv, h1, h2⟩ := h v (by simp)
+      rw [h1]
+      simp only [R.bind_ok, h2, if_false]
+      exact ih.mpr (fun x hx => h x (by simp [hx]))
+
+/-- what "fails the level" means: some criterion has its signed value below the signed threshold
+    (and every value examined before it exists) -/
+theorem badAt_imp (a : Alt α) (th : List (WCrit α)) (h : BadAt a th) :
+    ∃ v ∈ th, ∃ cv, a.signed v.crit = Except.ok cv ∧ cv < v.crit.mult * v.w := by
+  unfold BadAt at h
+  induction th with
+  | nil => simp [isGoodEnough] at h
+  | cons v vs ih =>
+    unfold isGoodEnough at h
+    obtain ⟨cv, h1, h2⟩ := R.bind_eq_ok h
+    by_cases hlt : cv < v.crit.mult * v.w
+    · exact ⟨v, by simp, cv, h1, hlt⟩
+    · simp only [hlt, if_false] at h2
+      obtain ⟨x, hx, r⟩ := ih h2
+      exact ⟨x, by simp [hx], r⟩
+
+/-- the fallback thresholds: per criterion the worst end of its range over ALL alternatives of the
+    state (declared range if present) — minimum for gain, maximum for cost -/
+theorem worst_ends_semantics (d : DMP α) (w : KMap α) (h : worstEnds d = Except.ok w) :
+    w.map (·.1) = d.crit.map (·.id) ∧
+    ∀ p ∈ w, ∃ c ∈ d.crit, c.id = p.1 ∧ ∃ r, valuesRange d.all c = Except.ok r ∧
+      p.2 = (if c.isGain then r.1 else r.2) := by
+  unfold worstEnds at h
+  generalize d.crit = cs at h
+  induction cs generalizing w with
+  | nil => simp at h; subst h; simp
+  | cons c cs ih =>
+    rw [List.mapM_cons] at h
+    obtain ⟨p, hp, h⟩ := R.bind_eq_ok h
+    obtain ⟨ps, hps, h⟩ := R.bind_eq_ok h
+    obtain ⟨r, hr, hp⟩ := R.bind_eq_ok hp
+    simp at h hp
+    subst h; subst hp
+    obtain ⟨i1, i2⟩ := ih ps hps
+    refine ⟨by simp [i1], ?_⟩
+    intro q hq
+    rcases List.mem_cons.mp hq with rfl | hq
+    · exact ⟨c, by simp, rfl, r, hr, rfl⟩
+    · obtain ⟨c', hc', rest⟩ := i2 q hq
+      exact ⟨c', by simp [hc'], rest⟩
+
+/-- **search order, current choice first**: `Evaluate` examines the current choice (known, not
+    necessarily considered) first and then the other considered alternatives -/
+theorem search_order_current_first (d : DMP α) (cur : String) (rnd : Bool) (ds ds' : Draws α)
+    (first : Alt α) (rest : List (Alt α)) (hc : cur ≠ "")
+    (h : searchOrder d cur rnd ds = Except.ok ((first, rest), ds')) :
+    first.id = cur ∧ first ∈ d.all ∧ rest.Perm (removeAlt d.co cur) :=
+  searchOrder_with_current d cur rnd ds ds' first rest hc h
+
+theorem search_order_without_current (d : DMP α) (rnd : Bool) (ds ds' : Draws α)
+    (first : Alt α) (rest : List (Alt α))
+    (h : searchOrder d "" rnd ds = Except.ok ((first, rest), ds')) : (first :: rest).Perm d.co :=
+  searchOrder_without_current d rnd ds ds' first rest h
+
+/-
+  Not proved here (stated for the record, checked on every run by `Spec.C13.check` on the
+  implementation's output and by the bit-exact correspondence of `satisfaction-evaluate`):
+
+  theorem model_output_passes_spec_partial (Rat) :
+      satisfactionCore d levels order = .ok out → (order.map (·.id)).Nodup → (crit ids Nodup) →
+      Spec.C13.check order d.crit levels d.all out = true
+  The clauses of the checker are proved above one by one on the model (`result_is_permutation…`,
+  `links_are_sequential`, `acceptance_order_is_lexicographic`, `entry_semantics`, `worst_ends_semantics`);
+  what is missing is the mechanical translation between these `Prop` statements and the checker's
+  Boolean formulation (index arithmetic over `findIdx`, map equality as `sameMap`).
+-/
+
+/-! ### satisfiable hypotheses -/
+
+example : ∃ out, satisfactionCore (α := Rat) ⟨[], [], [], .satisf "thresholds" (.thresholds []) 0 "" false⟩ []
+    [⟨"a", []⟩] = Except.ok out ∧ out.map (·.id) = ["a"] := ⟨_, rfl, rfl⟩
+
+/-- the constants and names this property depends on were re-read from the working tree on this run
+    (none fell back to its pinned value because its declaration could not be located) -/
+theorem facts_fresh : (Rdm.Facts.staleFacts.all fun n => !["methodSatisfaction", "wiringSatisfactionArgs", "wiringDecreasingLevels"].contains n) = true := by decide
+
 end Rdm.Props.C13
